@@ -213,6 +213,12 @@ mut("c15_update_ff_not_uncollected", "pymtl3/dsl/ComponentLevel2.py",
     "      s._dsl.all_update_ff -= m._dsl.update_ff\n", "      pass\n", ["C15"])
 
 
+mut("gendag_method_succ_dropped", "pymtl3/passes/sim/GenDAGPass.py",
+    "                          top._dag.all_constraints.add( (blk, vb) )", "                          pass", ["C02", "C17"])
+mut("gendag_u_before_method_dropped", "pymtl3/passes/sim/GenDAGPass.py",
+    "                    top._dag.all_constraints.add( (v, blk) )", "                    pass", ["C02", "C17", "C18"])
+
+
 def load_extra():
   p = os.path.join(VERIF, "tools", "mutants_extra.json")
   if os.path.exists(p):
